@@ -58,6 +58,8 @@ type Profile struct {
 	PFine float64
 	// HotP: probability that a promise operation addresses the run's hot id
 	HotP float64
+	// PExtremeTimeout: share of creates whose absolute deadline is at an end of the int64 range
+	PExtremeTimeout float64
 	// PHostileRecv: share of receivers (registrations, routing tags) the transports cannot use
 	PHostileRecv float64
 	// Collide: registrations with coinciding derived task ids
@@ -91,6 +93,7 @@ type Gen struct {
 	wReq, wTick int
 	nSettle     int
 	nGadget     int
+	nFaultSettle int
 	nCollide    int
 	wWork, wDel map[string]int
 	queue       []Step
@@ -134,6 +137,10 @@ func (p *Profile) DrawConfig(r *rand.Rand) Config {
 	}
 	if r.Intn(2) == 0 {
 		cfg.Targets = []Target{{Name: "tgt", Type: "poll", Data: []byte(`{"group":"tg","id":"t1"}`)}, {Name: "web", Type: "http", Data: []byte(`{"url":"http://web.test/hook"}`)}}
+		if r.Intn(2) == 0 {
+			// the operator may redefine the built-in name
+			cfg.Targets = append(cfg.Targets, Target{Name: "default", Type: "http", Data: []byte(`{"url":"http://default.test/in"}`)})
+		}
 	}
 	return cfg
 }
@@ -361,6 +368,10 @@ func (g *Gen) reqSpec() *ReqSpec {
 		}
 		if g.R.Intn(2) == 0 {
 			sp.PromiseTags = map[string]string{"pt": pick(g.R, []string{"x", "y"})}
+			if g.R.Intn(3) == 0 {
+				// the scheduled promise routes: it is born with its invocation task
+				sp.PromiseTags["resonate:invoke"] = pick(g.R, routingTags[:8])
+			}
 		}
 		if g.R.Intn(3) == 0 {
 			sp.Tags = map[string]string{"t": pick(g.R, []string{"a", "b"})}
@@ -548,6 +559,11 @@ func (g *Gen) faultIdx(n int, p float64) []int {
 // decorate sends a request through a front end and/or gives it hostile data.
 func (g *Gen) decorate(sp *ReqSpec) {
 	r := g.R
+	if g.P.PExtremeTimeout > 0 && (sp.Kind == "CreatePromise" || sp.Kind == "CreatePromiseAndTask") && r.Float64() < g.P.PExtremeTimeout {
+		// deadlines at the ends of the int64 range (clock arithmetic must not wrap)
+		v := pick(r, []int64{math.MinInt64, math.MinInt64 + 1_000_000, math.MinInt64 + 1<<41, -1, 0, 1, math.MaxInt64, math.MaxInt64 - 1_000_000})
+		sp.TimeoutAbs = &v
+	}
 	if g.P.HostileData {
 		switch sp.Kind {
 		case "CreatePromise", "CreatePromiseAndTask":
@@ -739,6 +755,14 @@ func (g *Gen) Next() Step {
 		}})
 	}
 	cs = append(cs, cand{g.wTick, func() Step { return Step{Op: "tick", Dt: g.dt()} }})
+	// whole background periods with store/router/sender failures inside them
+	if g.faults && g.nFaultSettle < 2 {
+		cs = append(cs, cand{2, func() Step {
+			g.nFaultSettle++
+			s.Probes["settle_with_faults"]++
+			return Step{Op: "settle", Rounds: 1 + r.Intn(2), Inner: pick(r, []int64{0, 1, 2}), FaultSeed: 1 + r.Int63n(1<<40)}
+		}})
+	}
 	// a few background periods in which hand-offs fail: tasks reach the transports mostly through
 	// whole dispatch cycles, which single scheduling steps rarely complete
 	if g.P.PHandoff > 0 && g.nSettle < 3 {
@@ -752,6 +776,9 @@ func (g *Gen) Next() Step {
 			cs = append(cs, cand{2, func() Step {
 				g.nSettle++
 				st := Step{Op: "settle", Rounds: 1 + r.Intn(3), Inner: pick(r, []int64{0, 1, 1, 2, 25})}
+				if g.faults && r.Intn(2) == 0 {
+					st.FaultSeed = 1 + r.Int63n(1<<40)
+				}
 				if r.Float64() < g.P.PBoundary {
 					g.alignSettle(&st)
 				}
@@ -776,10 +803,20 @@ func (g *Gen) Next() Step {
 			long := int64(10_000_000)
 			ids := append([]string{}, g.P.Promises...)
 			r.Shuffle(len(ids), func(i, j int) { ids[i], ids[j] = ids[j], ids[i] })
+			// fan-in: one root awaiting several leaves gets several tasks at once (only one of them
+			// may be dispatched at a time; the others must not keep other roots waiting)
+			fanIn := ""
+			if r.Intn(2) == 0 {
+				fanIn = pick(r, []string{"a0", "m5", "r0", ids[0]})
+			}
 			for i, n := 0, 2+r.Intn(3); i < n && i < len(ids); i++ {
 				id := ids[i]
 				short := pick(r, []int64{1500, 3000, 5000, 20000, long})
-				switch r.Intn(3) {
+				kindOf := r.Intn(3)
+				if fanIn != "" && i > 0 && r.Intn(3) != 0 {
+					kindOf = 2
+				}
+				switch kindOf {
 				case 0:
 					g.queue = append(g.queue, Step{Op: "req", Req: &ReqSpec{Kind: "CreatePromise", Id: id, Data: g.val(), TimeoutRel: short, Tags: map[string]string{"resonate:invoke": pick(r, routingTags)}}})
 				case 1:
@@ -789,7 +826,12 @@ func (g *Gen) Next() Step {
 						Step{Op: "req", Req: &ReqSpec{Kind: "CompletePromise", Id: id, State: pick(r, []string{"RESOLVED", "REJECTED"}), Data: g.val()}})
 				default:
 					g.queue = append(g.queue, Step{Op: "req", Req: &ReqSpec{Kind: "CreatePromise", Id: id, Data: g.val(), TimeoutRel: long}},
-						Step{Op: "req", Req: &ReqSpec{Kind: "CreateCallback", Id: "cb", PromiseId: id, RootId: pick(r, g.P.Promises), Recv: g.recv(), TimeoutRel: short}},
+						Step{Op: "req", Req: &ReqSpec{Kind: "CreateCallback", Id: "cb", PromiseId: id, RootId: func() string {
+							if fanIn != "" {
+								return fanIn
+							}
+							return pick(r, g.P.Promises)
+						}(), Recv: g.recv(), TimeoutRel: short}},
 						Step{Op: "drain"},
 						Step{Op: "req", Req: &ReqSpec{Kind: "CompletePromise", Id: id, State: pick(r, []string{"RESOLVED", "REJECTED"}), Data: g.val()}})
 				}
